@@ -5,12 +5,37 @@ use crate::{
 };
 
 pub mod c01;
+pub mod c07;
+pub mod c08;
 pub mod c09;
+pub mod c10;
+pub mod c11;
+pub mod be256;
+pub mod c16;
+pub mod c17;
+pub mod c18;
+pub mod c21;
+pub mod c22;
+pub mod c25;
+pub mod insn_bench;
+pub mod c32;
+pub mod grp_e;
 
 pub fn run(cfg: &Cfg) -> Option<Report> {
     let r = match cfg.prop.as_str() {
         "C01" => c01::run(cfg),
+        "C07" => c07::run(cfg),
+        "C08" => c08::run(cfg),
         "C09" => c09::run(cfg),
+        "C10" => c10::run(cfg),
+        "C11" => c11::run(cfg),
+        "C16" => c16::run(cfg),
+        "C17" => c17::run(cfg),
+        "C18" => c18::run(cfg),
+        "C21" => c21::run(cfg),
+        "C22" => c22::run(cfg),
+        "C25" => c25::run(cfg),
+        "C32" => c32::run(cfg),
         _ => return None,
     };
     Some(r)
